@@ -505,7 +505,19 @@ func eqStr(x, y *SymStr) Value {
 		if acc.isFalse() {
 			return false
 		}
-		e := tEqRaw(byteTerm(x.b[i]), byteTerm(y.b[i]))
+		var e *Term
+		tx, okx := x.b[i].(codecToken)
+		ty, oky := y.b[i].(codecToken)
+		if okx || oky {
+			// ideal-codec tokens (DESIGN §2.6) compare by the value they carry
+			if okx && oky && types.Identical(tx.t, ty.t) {
+				e = boolTerm(eqValues(tx.v, ty.v))
+			} else {
+				e = tFalse
+			}
+		} else {
+			e = tEqRaw(byteTerm(x.b[i]), byteTerm(y.b[i]))
+		}
 		if xc && int64(i) < xn {
 			acc = tAnd(acc, e)
 		} else {
